@@ -73,7 +73,7 @@ Proof.
   - destruct (q_active qu) eqn:Ea; cbn [negb].
     + unfold R. rewrite get_queue_set_queue. destruct (seqb q qn) eqn:E1.
       * apply seqb_spec in E1. subst. rewrite Eq. cbn [andb]. unfold call_consumers. cbn. rewrite Ea. reflexivity.
-      * cbn [andb]. rewrite (get_queue_same_queues s); [destruct (get_queue s q); reflexivity|]. cbn. apply queues_upd_msg.
+      * cbn [andb]. rewrite (get_queue_same_queues s); [destruct (get_queue s q); reflexivity|]. cbn. rewrite queues_upd_msg. apply store_writeback_frame.
     + destruct (R s q); rewrite ?andb_false_r; reflexivity.
   - destruct (R s q); rewrite ?andb_false_r; reflexivity.
 Qed.
@@ -130,7 +130,7 @@ Proof.
   unfold queue_requeue. destruct (get_queue s qn) as [qu|] eqn:Eq; auto. destruct (negb (q_active qu)) eqn:Ea; auto.
   unfold QA. rewrite get_queue_set_queue. destruct (seqb q qn) eqn:E1.
   - apply seqb_spec in E1. subst. rewrite Eq. unfold call_consumers. cbn. destruct (q_active qu) eqn:Eb; cbn; rewrite ?Eb; reflexivity.
-  - rewrite (get_queue_same_queues s); [reflexivity|]. cbn. apply queues_upd_msg.
+  - rewrite (get_queue_same_queues s); [reflexivity|]. cbn. rewrite queues_upd_msg. apply store_writeback_frame.
 Qed.
 
 (* the message of delivery u goes back to queue q: q is the queue object it was delivered from, and it is active *)
@@ -502,8 +502,9 @@ Theorem requeue_raises_delivery_count s qn u qu m :
 Proof.
   intros Eq Ea Em. unfold queue_requeue. rewrite Eq, Ea. cbn [negb].
   match goal with |- exists m', get_msg ?st u = _ /\ _ =>
-    rewrite (get_msg_same_heap (upd_msg s u (fun m => m <| m_dc ::= N.succ |>)) st u eq_refl) end.
-  unfold upd_msg. rewrite Em. unfold get_msg. cbn.
+    rewrite (get_msg_same_heap (upd_msg (store_writeback s qn u (q_durable qu)) u (fun m => m <| m_dc ::= N.succ |>)) st u eq_refl) end.
+  unfold upd_msg. rewrite get_msg_store_writeback, Em. unfold get_msg. cbn.
+  destruct (store_writeback_frame s qn u (q_durable qu)) as (_ & _ & -> & _).
   rewrite (alookup_aset N.eqb Neqb_spec), N.eqb_refl. eexists. split; [reflexivity|]. cbn. repeat split.
 Qed.
 
